@@ -425,7 +425,8 @@ func genSrvCase(r *rand.Rand) *SrvCase {
 	sc.Filter = r.Intn(2) == 0
 	sc.Typ = []string{"PUT_VALUE", "GET_VALUE", "ADD_PROVIDER", "GET_PROVIDERS", "FIND_NODE", "PING", "UNKNOWN"}[r.Intn(7)]
 	sc.KeyClass = []string{"ok", "ok", "ok", "none", "max80", "long"}[r.Intn(6)]
-	if sc.Typ == "FIND_NODE" && r.Intn(4) != 0 {
+	// a peer id as the key: mostly for FIND_NODE, but any request type may carry one
+	if (sc.Typ == "FIND_NODE" && r.Intn(4) != 0) || (sc.Typ != "FIND_NODE" && sc.Typ != "PING" && r.Intn(6) == 0) {
 		sc.KeyClass = "target"
 		sc.Target = []string{"requester", "self", "member", "known", "nobody"}[r.Intn(5)]
 	}
